@@ -33,8 +33,10 @@ def gen(rng, index, tier):
     m, obs = enginesim.pre_run(rng, case)
     if m is None:
         return None
+    knob = rng.choice([{'env': {'FLIPJUMP_NO_FLAT': '1'}}, {'flat_max_words': rng.choice([1, 2, 3, 5, 16, 64])},
+                       {'env': {'FLIPJUMP_MEASURE_SPECULATION': '1'}}, {'last_ops': rng.choice([1, 4])}])
     case['configs'] = [{'engine': 'native', 'probe': 'touched'}, {'engine': 'fast', 'probe': 'touched'},
-                       {'engine': 'featured', 'probe': 'touched'}]
+                       {'engine': 'featured', 'probe': 'touched'}, dict({'engine': 'native', 'probe': 'touched'}, **knob)]
     return case
 
 
